@@ -84,7 +84,11 @@ func schedFor(r *Rng) simsync.Config {
 // GenCase draws one case for a property.
 func GenCase(prop string, regs []*Registration, r *Rng) *Case {
 	var pool []*Registration
+	only := os.Getenv("VERIF_STYLE") // debugging aid
 	for _, reg := range regs {
+		if only != "" && reg.Style != only {
+			continue
+		}
 		switch prop {
 		case "C04":
 			if reg.Style == "matryer" {
@@ -152,7 +156,7 @@ func GenCase(prop string, regs []*Registration, r *Rng) *Case {
 		if r.Chance(1, 6) {
 			cs.Modes[pickS(r, names)] = "panic"
 		}
-		if r.Chance(1, 5) {
+		if r.Chance(1, 10) {
 			cs.Modes[hot] = "reentrant"
 		}
 		if reg.Opts["stub-impl"] && r.Chance(1, 4) {
@@ -161,7 +165,10 @@ func GenCase(prop string, regs []*Registration, r *Rng) *Case {
 		nt := 2 + r.Intn(3)
 		for t := 0; t < nt; t++ {
 			var ops []Op
-			no := 2 + r.Intn(5)
+			no := 2 + r.Intn(3)
+			if nt == 2 {
+				no = 2 + r.Intn(5)
+			}
 			for i := 0; i < no; i++ {
 				m := hot
 				if r.Chance(1, 3) {
